@@ -86,9 +86,17 @@ Definition wtail_linked (c : cfg) (t : option wseg) (bd : bdisk) (d : disk) : Pr
   | None => True
   end.
 
-Definition WL (c : cfg) (w : wal) (bd : bdisk) (d : disk) : Prop :=
-  wdrep c bd d /\ NoDup (map fst (dk_files d)) /\ st_next_id w < two64 /\
-  wtail_linked c (st_tail w) bd d /\ small_tail (st_tail w).
+(* the byte-level part of the invariant, and the numeric guards (which follow
+   from the live invariant LInv of the WAL-level proofs: FaultLinkFacts) *)
+Definition WL0 (c : cfg) (t : option wseg) (bd : bdisk) (d : disk) : Prop :=
+  wdrep c bd d /\ NoDup (map fst (dk_files d)) /\ wtail_linked c t bd d.
+
+Definition tail_id (w : wal) : Prop :=
+  match st_tail w with Some tw => snd (ws_name tw) < st_next_id w | None => True end.
+
+Definition WG (w : wal) : Prop := st_next_id w < two64 /\ small_tail (st_tail w) /\ tail_id w.
+
+Definition WL (c : cfg) (w : wal) (bd : bdisk) (d : disk) : Prop := WL0 c (st_tail w) bd d /\ WG w.
 
 Definition wop_link (c : cfg) (bd : bdisk) (e : env) (w' : wal) (e' : env) : Prop :=
   exists bd', werun c bd e bd' e' /\ WL c w' bd' (e_disk e').
